@@ -53,8 +53,13 @@ def main():
         out["patch_applies"] = rc == 0
         if rc != 0:
             out["patch_error"] = o[-400:]
-        rc, o = sh("unshare -n sh -c 'ip link set lo up; /venv/bin/python -m pytest -q -x -p no:cacheprovider --timeout=900' 2>&1 | tail -3", cwd=tmp, env=envd)
-        out["suite"] = "passed" if (" passed" in o and "failed" not in o and "error" not in o.lower()) else "FAILED: " + o[-300:]
+        for attempt in range(3):          # the two socket-level integration tests are timing-sensitive under load: retry
+            rc, o = sh("unshare -n sh -c 'ip link set lo up; /venv/bin/python -m pytest -q -p no:cacheprovider --timeout=900' 2>&1 | tail -4", cwd=tmp, env=envd)
+            ok = " passed" in o and "failed" not in o and "error" not in o.lower()
+            if ok or "test_integration" not in o:
+                break
+        out["suite"] = "passed" if ok else "FAILED: " + o[-300:]
+        out["suite_attempts"] = attempt + 1
         rc, o = sh("/venv/bin/python seeded/X/demo.py", cwd=tmp, env=envd, timeout=900)
         out["demo_changed_exit"] = rc
         out["demo_changed_tail"] = o.strip()[-300:]
